@@ -54,6 +54,43 @@ theorem checker_sound_counts (sig : Sig) (prog : Prog) (hc : consistent sig prog
       ∀ l, post.count l + rels l tr = req.count l + acqs l tr :=
   BbRe.Lemmas.LockSkel.checker_sound_counts sig prog hc f tr he
 
+/-- No lock operation of any run mentions a ghost lock (`1000*c+999`, "a lock of class `c`
+held by my caller"): ghosts only stand for the caller's locks in helper summaries. -/
+theorem checker_sound_ghostFree (sig : Sig) (prog : Prog) (hc : consistent sig prog = true) :
+    ∀ (f : Nat) (tr : List Ev), Exec prog f tr → GhostFree tr :=
+  BbRe.Lemmas.LockSkel.checker_sound_ghostFree sig prog hc
+
+/-- **Guarded-by.** What `run … = some _` says about the `need cs` events of a trace (the
+translator emits one for every assignment to / `delete` from / declared mutating method call
+on a field of a type listed in tools/lockskel/guards.json): at the moment of the event a
+lock of one of the classes `cs` is held. For an `RWMutex` the write mode and the read mode
+are different classes, and a mutation lists only the write mode. -/
+theorem need_events_hold (h h' : List Nat) (p q : List Ev) (cs : List Nat)
+    (hr : run h (p ++ Ev.need cs :: q) = some h') :
+    ∃ h1, run h p = some h1 ∧ holdsClass h1 cs = true := by
+  rw [run_append] at hr
+  cases hp : run h p with
+  | none => rw [hp] at hr; cases hr
+  | some h1 =>
+    rw [hp] at hr
+    simp only [Option.bind, run, stepH] at hr
+    refine ⟨h1, rfl, ?_⟩
+    cases hc : holdsClass h1 cs with
+    | true => rfl
+    | false => rw [hc] at hr; simp at hr
+
+/-- Guarded-by for a consistent program: in every returning run of every function, every
+mutation of guarded state happens while a lock of a guarding class is held — given the
+locks the function's summary requires on entry (for helpers: the ghost locks standing for
+the caller's locks, whose presence is verified at every translated call site). -/
+theorem guarded_mutations_are_locked (sig : Sig) (prog : Prog) (hc : consistent sig prog = true)
+    (f : Nat) (p q : List Ev) (cs : List Nat) (he : Exec prog f (p ++ Ev.need cs :: q)) :
+    ∃ req post, sig.get f = some (req, post) ∧
+      ∃ h1, run req p = some h1 ∧ holdsClass h1 cs = true := by
+  obtain ⟨req, post, hs, h', hr, _⟩ := checker_sound sig prog hc f _ he
+  obtain ⟨h1, h1r, h1c⟩ := need_events_hold req h' p q cs hr
+  exact ⟨req, post, hs, h1, h1r, h1c⟩
+
 /-- Corollary for balanced entry points: a function whose summary is empty, in a
 consistent program, returns with nothing held, whatever path it took. -/
 theorem balanced_entry_leaves_nothing (sig : Sig) (prog : Prog) (hc : consistent sig prog = true)
